@@ -6,6 +6,21 @@ ALL = [f"C{i:02d}" for i in range(1, 21)]
 
 # id -> (category, technique, text, note, design_ref)
 CHECKS = {
+    "C09": ("exploration",
+            "bounded-exhaustive enumeration of all pairs/triples over float alphabets on the real comparison operators",
+            "Every ordered pair and triple of insertion-cost vectors (length 0..3/4 over {-1,-0,+0,0.5,1,2}) and of solution contexts whose fitness vectors range over a float alphabet (incl. -0, f64::MAX, NaN) is compared with the real InsertionCost operators and real Goal objects (1-3 single layers; dominance layers as the pragmatic reader builds them); order laws, agreement with numeric lexicographic order and the add/sub inverse law are decided on each.",
+            "Finite float alphabets; how +0/-0 compare inside InsertionCost is left open by the property and only checked for order laws.",
+            "DESIGN.md section 5 C09"),
+    "C16": ("exploration",
+            "bounded-exhaustive enumeration of matrix sets and queries against a table-lookup specification",
+            "Every matrix set in sizes x profiles x timestamp sets x input orders (injective entry codes, asymmetric) is given to the real providers (core constructors and pragmatic reader) and every (profile, scale, from, to, time, departure/arrival) query is compared with a table-lookup spec; inconsistent sets must be rejected; approximation must be symmetric with zero diagonal.",
+            "Matrix sizes <= 3 (4 thorough), <= 3 profiles, <= 4 timestamps; non-integral query times inside a bracket only required to lie between the bracketing values.",
+            "DESIGN.md section 5 C16"),
+    "C17": ("exploration",
+            "bounded-exhaustive enumeration of instances (matrices x start paths; point sets x parameters x orders; split-plan policies) against contract oracles",
+            "Every symmetric cost matrix over a small alphabet with every start permutation for LKH (deterministic worker processes, step budget as horizon), every subset of a 3x3 grid with duplicates for DBSCAN under every eps/min_pts/presentation order, every small point set for k-medoids (flat and hierarchical) under all split-plan policies of the parallel wrappers, each judged by straight-line re-definitions of the contracts.",
+            "n <= 5 (6-7 for Euclidean grids) nodes; grid geometry only; flat k-medoids only for k <= n.",
+            "DESIGN.md section 5 C17"),
     "C14": ("model_checking",
             "explicit-state BFS over operation histories of the real Tour/Registry against a Vec/set reference model",
             "All operation histories up to the depth bound over insert_at/insert_last/remove/remove_activity_at (tours) and use/free/get_route/use_route/free_route/deep_copy/deep_slice (registry) are executed on the real types; every reached state is compared with a boring reference model and deep copies are checked for independence with every follow-up operation. The tour state space (all arrangements of the task alphabet) is covered completely.",
